@@ -179,6 +179,7 @@ type seqScenario struct {
 	// is never looked at as a report to upload)
 	Stray       string
 	Zoned       bool // start times carry a non-UTC location
+	AgeLimit    bool // the age-limit family (a week ending within minutes of the 21-day limit)
 	FutureReady bool
 }
 
@@ -248,6 +249,11 @@ func genSeqScenario(r *verifrt.Rand, i int) *seqScenario {
 			end = t1.Add(time.Duration(1+r.Intn(6)) * 24 * time.Hour).Truncate(24 * time.Hour) // still active at run 1
 		case 4:
 			end = t1.Add(-time.Duration(20+r.Intn(4))*24*time.Hour - time.Duration(r.Intn(3)-1)*time.Second) // around the 21 day limit
+			if r.Intn(3) == 0 {
+				// ... and within the hour on either side of it (21 days are 504 hours,
+				// whatever the wall clock of the start time's zone did meanwhile)
+				end = t1.Add(-21*24*time.Hour - time.Duration(r.Intn(5)-2)*29*time.Minute)
+			}
 		default:
 			end = t1.Truncate(24 * time.Hour).Add(-time.Duration(r.Intn(15)) * 24 * time.Hour)
 		}
@@ -359,7 +365,31 @@ func genSeqScenario(r *verifrt.Rand, i int) *seqScenario {
 		s.Grow = map[int]int{1: 0}
 		s.PreLocal, s.PreUpload = map[string]string{}, map[string]string{}
 	}
-	if i%40 == 13 {
+	if i%20 == 7 {
+		// the 21-day age limit seen from a zone whose clocks moved by an hour during
+		// those 21 days (either way): a week that ended half an hour before or after
+		// the limit, one run, everything else permitting the upload
+		j := i / 20
+		off := int32([]int{-5, 1, 10, -8}[j%4]) * 3600
+		d := int32([]int{3600, -3600}[(j/4)%2])
+		t0 := s.Starts[0].UTC()
+		z := verifrt.ShiftZone(t0.Add(-time.Duration(1+r.Intn(20))*24*time.Hour), off+d, off)
+		side := time.Duration([]int{-31, 31, -1, 1}[(j/8)%4]) * time.Minute
+		f := s.Files[0]
+		f.Kind = "ok"
+		f.End = t0.Add(-21*24*time.Hour + side)
+		f.Begin = f.End.Add(-3 * 24 * time.Hour).Truncate(24 * time.Hour)
+		f.setName(0)
+		s.Files = s.Files[:1]
+		s.Starts = []time.Time{t0.In(z)}
+		s.Mode = []string{"on 2010-01-01"}
+		s.Xs = []float64{0.5}
+		s.Cfg.SampleRate = 0
+		s.Grow = map[int]int{}
+		s.PreLocal, s.PreUpload = map[string]string{}, map[string]string{}
+		s.Zoned = true
+		s.AgeLimit = true
+	} else if i%40 == 13 {
 		// late in the UTC day, seen from a zone where it is already tomorrow: a
 		// pending report dated tomorrow (UTC) is a report for a week in the future
 		d := s.Starts[0].UTC().Truncate(24 * time.Hour)
@@ -374,6 +404,13 @@ func genSeqScenario(r *verifrt.Rand, i int) *seqScenario {
 		// the start times are the same instants, expressed in another time zone
 		// (the default start time is time.Now(), a local time): nothing may depend on it
 		z := time.FixedZone("Z", verifrt.Pick(r, []int{14, 13, 9, 5, -3, -8, -11, -12})*3600)
+		if r.Intn(2) == 0 {
+			// a zone whose offset changed by an hour (either way) 1-20 days before the
+			// first start: calendar arithmetic in it is off by that hour
+			off := int32(verifrt.Pick(r, []int{-5, -8, 1, 10, 0})) * 3600
+			d := int32(verifrt.Pick(r, []int{3600, -3600}))
+			z = verifrt.ShiftZone(s.Starts[0].Add(-time.Duration(1+r.Intn(20))*24*time.Hour), off+d, off)
+		}
 		for k := range s.Starts {
 			s.Starts[k] = s.Starts[k].In(z)
 		}
@@ -480,7 +517,7 @@ func TestVerifUploadSeq(t *testing.T) {
 	}
 	cs.c07.Require("stray-json-in-local", "week-reported", "multi-file-sum", "multi-build", "boundary-end==start", "unreadable-untouched", "preexisting-report", "rerun", "grown-file", "empty-only-week")
 	cs.c01.Require("request-checked", "excluded-by-rate", "unlisted-version", "near-miss-dropped", "stack-plain-clash")
-	cs.c02.Require("mode-on-sent", "mode-local", "mode-off", "mode-malformed", "too-old", "asof-blocks", "sample-blocks")
+	cs.c02.Require("mode-on-sent", "mode-local", "mode-off", "mode-malformed", "too-old", "asof-blocks", "sample-blocks", "age-limit-in-shifted-zone")
 	cs.c09.Require("end<start:consumed", "end==start:kept", "end>start:kept", "same-day-after-end:consumed")
 	for _, x := range []*verifrt.Result{cs.c07, cs.c01, cs.c02, cs.c09} {
 		if err := x.Write(); err != nil {
@@ -525,6 +562,9 @@ func runSeqScenario(c *seqChecks, base string, s *seqScenario, rnd *verifrt.Rand
 	}
 	if s.Zoned {
 		c.c02.Hit("start-time-in-another-zone")
+	}
+	if s.AgeLimit {
+		c.c02.Hit("age-limit-in-shifted-zone")
 	}
 	if s.FutureReady {
 		c.c02.Hit("pending-report-for-tomorrow-utc")
